@@ -204,6 +204,7 @@ func TestC08_Fsmx(t *testing.T) {
 			h.do(Act{Kind: "SetDataLimit", Limit: l0})
 		}
 		kind := limitedKind(spec.Pull)
+		sentLag := rapid.IntRange(0, 3).Draw(t, "sentLag")
 		for i := 0; i < n; i++ {
 			for nb := rapid.IntRange(1, 2).Draw(t, "betweenActions"); nb > 0; nb-- {
 				switch rapid.IntRange(0, 9).Draw(t, "between") {
@@ -224,8 +225,9 @@ func TestC08_Fsmx(t *testing.T) {
 				}
 			}
 			h.do(Act{Kind: kind, Index: int64(i + 1), Delta: sizes[i], Unique: true})
-			if spec.Pull {
-				h.do(Act{Kind: "DataSent", Index: int64(i + 1), Delta: sizes[i], Unique: true})
+			if spec.Pull && i >= sentLag {
+				// what went out on the wire trails what was queued (the limit is about the queued total)
+				h.do(Act{Kind: "DataSent", Index: int64(i + 1 - sentLag), Delta: sizes[i-sentLag], Unique: true})
 			}
 		}
 		sp.Eval()
